@@ -30,6 +30,7 @@ func extraFacts(lf *leanFile) {
 	}
 	lf.def("fetchATCases", "List (String × List String)", "["+strings.Join(rows, ",\n   ")+"]")
 	ociFacts(lf)
+	retryFacts(lf)
 }
 
 // ociFacts: structural facts about content/oci/oci.go that the OCI model is parameterised by.
@@ -112,6 +113,35 @@ func ociFacts(lf *leanFile) {
 		callList("content/oci/storage.go", "Storage", "ingest"),
 		callList("content/oci/storage.go", "Storage", "Delete"),
 	}, ",\n   ")+"]")
+}
+
+// retryFacts: is rand.Int64N in ExponentialBackoff called under an `if`?
+func retryFacts(lf *leanFile) {
+	guarded := "false"
+	found := false
+	if fd := funcDecl("registry/remote/retry/policy.go", "", "ExponentialBackoff"); fd != nil {
+		var stack []ast.Node
+		ast.Inspect(fd.Body, func(n ast.Node) bool {
+			if n == nil {
+				stack = stack[:len(stack)-1]
+				return true
+			}
+			if c, ok := n.(*ast.CallExpr); ok && exprString(c.Fun) == "rand.Int64N" {
+				found = true
+				for _, p := range stack {
+					if _, ok := p.(*ast.IfStmt); ok {
+						guarded = "true"
+					}
+				}
+			}
+			stack = append(stack, n)
+			return true
+		})
+	}
+	if !found {
+		miss("registry/remote/retry/policy.go:ExponentialBackoff rand.Int64N")
+	}
+	lf.def("backoffGuardsJitter", "Bool", guarded)
 }
 
 // callList: the ordered list of selector calls (pkg.Func / recv.Method) in a function body.
